@@ -76,7 +76,13 @@ func post_Authorize_complete(s *Service, channel *security.Channel, permission u
 // Every way a connection ends - EOF at any byte, a decode error, a handler error, a panic while serving it - leaves
 // Process through its deferred Close: decided on the control-flow graph (first instruction defers Close on the
 // receiver, every return runs the deferred calls, nothing else defers Close).
-//@ structural (*Conn).Process defer-first=(*broker.Conn).Close props=C08
+//@ structural (*Conn).Process defer-first=(*broker.Conn).Close props=C08,C09
+
+// A panic raised while serving a client (the body decoders index hostile bytes without length tests, by design)
+// must end at most that connection: Close - the function Process defers - calls recover() ITSELF, on every path.
+// (Go stops a panic only when the deferred function calls recover directly; from a helper it returns nil and the
+// panic goes on to kill the process.)
+//@ structural (*Conn).Close recovers props=C08,C09
 
 //@ assume (*github.com/emitter-io/emitter/internal/message.Counters).All iface
 //@ assume (*github.com/emitter-io/emitter/internal/service/pubsub.Service).Unsubscribe iface
